@@ -1,6 +1,7 @@
 import EinoV.Model.C02Workflow
 import EinoV.Proofs.C02Run
 import EinoV.Proofs.C02Compile
+import EinoV.Proofs.C02Just
 namespace EinoV.Engine
 namespace DagRun
 
@@ -207,6 +208,90 @@ theorem compileW_succOK {V} (ops : ValOps V) (w : WorkflowDef V) : SuccOK (compi
     apply hkc
     simp only [WorkflowDef.ctrlPreds]
     exact ctrlPreds_mem w.branches _ k x.2 (by rw [← h2]; exact h1) s' h3
+
+
+structure EKInv {V} (ops : ValOps V) (r : Runner V) (x : V) (cm : Chans V) (running : List (Key × V))
+    (bs : List (List (Key × V))) : Prop where
+  k : K r (histOf r x bs.reverse) cm
+  sh : shapes cm = shapes (initChans r)
+  just : JustTr ops r x bs.reverse
+  run : ∀ t, t ∈ running → t ∈ bs.flatten
+
+theorem mem_eraseIdx_sub {α} (l : List α) (i : Nat) : ∀ t, t ∈ l.eraseIdx i → t ∈ l :=
+  fun _ h => (List.eraseIdx_sublist l i).subset h
+
+theorem eagerLoop_justified {V} (ops : ValOps V) (r : Runner V) (wf : DagWF r) (pick : Pick V) (x : V) :
+    ∀ (fuel : Nat) (cm : Chans V) (running : List (Key × V)) (bs : List (List (Key × V))) (comp : List Key),
+      EKInv ops r x cm running bs →
+      JustTr ops r x (eagerLoop ops r pick fuel cm running bs comp).batches.reverse ∧
+      (∀ v, (eagerLoop ops r pick fuel cm running bs comp).result = .ok v →
+        Justified ops r (histOf r x (eagerLoop ops r pick fuel cm running bs comp).batches.reverse) END v) := by
+  obtain ⟨rank, hrank⟩ := wf.acyclic
+  intro fuel
+  induction fuel with
+  | zero =>
+    intro cm running bs comp h
+    exact ⟨h.just, fun v hv => by simp [eagerLoop] at hv⟩
+  | succ f ih =>
+    intro cm running bs comp h
+    unfold eagerLoop
+    cases hp : running[pick running % running.length]? with
+    | none => exact ⟨h.just, fun v hv => by simp at hv⟩
+    | some t =>
+      simp only
+      cases hce : collectOne (execOne r t) with
+      | error e => exact ⟨h.just, fun v hv => by simp at hv⟩
+      | ok d =>
+        simp only
+        have htr : t ∈ running := List.mem_of_getElem? hp
+        have hdH : d ∈ histOf r x bs.reverse := by
+          have := h.run t htr
+          simp only [histOf, List.mem_cons, List.mem_filterMap]
+          refine Or.inr ⟨t, ?_, by simp [outOf, hce]⟩
+          simp only [List.mem_flatten, List.mem_reverse] at this ⊢
+          exact this
+        cases hc : calcNext ops r cm [d] with
+        | error e => exact ⟨h.just, fun v hv => by simp at hv⟩
+        | ok res =>
+          obtain ⟨cm', nx⟩ := res
+          obtain ⟨j1, j2, j3⟩ := calcNext_K ops r wf.dag wf.succ wf.startKey rank hrank cm cm' [d] nx h.k h.sh
+            (by intro t' ht'; simp only [List.mem_singleton] at ht'; subst ht'; exact hdH) hc
+          rcases j3 with ⟨v, rfl, hj⟩ | ⟨ts, rfl, hj⟩
+          · exact ⟨h.just, fun w hw => by simp only [Except.ok.injEq] at hw; subst hw; exact hj⟩
+          · simp only
+            apply ih
+            have hrev : (bs ++ [ts]).reverse = ts :: bs.reverse := by simp
+            refine ⟨?_, j2, ?_, ?_⟩
+            · rw [hrev]; exact K_mono j1 (histOf_mono r x ts bs.reverse)
+            · rw [hrev]; exact ⟨hj, h.just⟩
+            · intro t' ht'
+              simp only [List.flatten_append, List.flatten_cons, List.flatten_nil, List.append_nil, List.mem_append]
+              rcases List.mem_append.mp ht' with h1 | h1
+              · exact Or.inl (h.run t' (mem_eraseIdx_sub _ _ t' h1))
+              · exact Or.inr h1
+
+/-- **every start of the eager (Workflow) loop is justified**, for every completion order. -/
+theorem runEager_justified {V} (ops : ValOps V) (r : Runner V) (wf : DagWF r) (pick : Pick V) (x : V) :
+    JustTr ops r x (runEager ops r pick x).batches.reverse ∧
+    (∀ v, (runEager ops r pick x).result = .ok v →
+      Justified ops r (histOf r x (runEager ops r pick x).batches.reverse) END v) := by
+  obtain ⟨rank, hrank⟩ := wf.acyclic
+  unfold runEager
+  cases hc : calcNext ops r (initChans r) [(START, x)] with
+  | error e => exact ⟨trivial, fun v hv => by simp at hv⟩
+  | ok res =>
+    obtain ⟨cm', nx⟩ := res
+    obtain ⟨j1, j2, j3⟩ := calcNext_K (H := histOf r x []) ops r wf.dag wf.succ wf.startKey rank hrank
+      (initChans r) cm' [(START, x)] nx (init_K r wf.dag wf.nodup _) rfl
+      (by intro t ht; simp only [List.mem_singleton] at ht; subst ht; simp [histOf]) hc
+    rcases j3 with ⟨v, rfl, hj⟩ | ⟨ts, rfl, hj⟩
+    · exact ⟨trivial, fun w hw => by simp only [Except.ok.injEq] at hw; subst hw; exact hj⟩
+    · simp only
+      apply eagerLoop_justified ops r wf pick x
+      refine ⟨?_, j2, ?_, ?_⟩
+      · exact K_mono j1 (histOf_mono r x ts [])
+      · exact ⟨hj, trivial⟩
+      · intro t ht; simpa using ht
 
 end DagRun
 end EinoV.Engine
